@@ -542,6 +542,58 @@ def holdsC07 (prio : List HookDef) (wet : Bool) (trees : List (List Meta)) (tick
     if t.ret != "ASYNC_PAUSED" && t.ret != "" && st.live.isSome then st := st.bad "return_async_iff_hook_outstanding"
   return st
 
+/-! ## C03 on kill cycles that wait for a hook: the fallback order survives the serialised stack
+
+A kill cycle ranks its candidates on the tick it starts; when a hook defers it, the remaining candidates are serialised and
+restored on the tick the hook is done.  The attempts of one cycle, over all its ticks, must still come in rank order
+(preference, then key; ties free) - evaluated on the implementation's attempts and the views of the cycle's first tick. -/
+
+structure Leaf where
+  v : View
+  chain : List View
+
+partial def leavesOf (cfg : KillCfg) (anc : List View) (v : View) : List Leaf :=
+  if cfg.recursive && !(v.info.oomGroup.getD false) && !v.children.isEmpty then
+    (v.children.filter (·.info.eligible)).flatMap (leavesOf cfg (anc ++ [v]))
+  else if v.info.populated.getD true then [{ v := v, chain := anc ++ [v] }] else []
+
+def diverge : List View → List View → Option (View × View)
+  | a :: as, b :: bs => if a.id == b.id then diverge as bs else some (a, b)
+  | _, _ => none
+
+def attemptStarts (t : ImplTick) : List Nat :=
+  t.evs.filterMap fun s => match s.ev with
+    | .k _ (some cg) true _ => some cg
+    | _ => none
+
+def holdsC03Cycles (cfg : KillCfg) (firstViews : List (List View)) (ticks : List ImplTick) : List String := Id.run do
+  let mut viol : List String := []
+  let mut cur : Option (List View × List Nat) := none       -- roots of the cycle's first tick, attempts so far
+  for (t, i) in ticks.zipIdx do
+    let roots := firstViews.getD i []
+    let (r0, att0) := match cur with
+      | some c => if t.fresh then (roots, []) else c
+      | none => (roots, [])
+    let att := att0 ++ attemptStarts t
+    cur := some (r0, att)
+    if t.ret != "ASYNC_PAUSED" then
+      let leaves := (r0.filter (·.info.eligible)).flatMap (leavesOf cfg [])
+      let ambiguous (id : Nat) : Bool := (leaves.filter (·.v.id == id)).length > 1
+      let attLeaves := att.eraseDups.filterMap fun id => if ambiguous id then none else leaves.find? (·.v.id == id)
+      let n := attLeaves.length
+      for a in [0:n] do
+        for b in [a+1:n] do
+          match attLeaves[a]?, attLeaves[b]? with
+          | some la, some lb =>
+            match diverge la.chain lb.chain with
+            | some (x, y) =>
+              if !(rkGe x y) then
+                viol := viol ++ [if x.pref != y.pref then "C03.prefer_normal_avoid_across_hook_wait" else "C03.fallback_in_rank_order_across_hook_wait"]
+            | none => pure ()
+          | _, _ => pure ()
+      cur := none
+  return viol.eraseDups
+
 /-! ## one scenario -/
 
 def count (l : List String) (x : String) : Nat := (l.filter (· == x)).length
@@ -591,7 +643,13 @@ def handle (j : Json) : Json := Id.run do
       tins0 := tins0 ++ [(top, views, rootsOf ms views (patterns sc))]
   -- holds
   let hs := holdsC07 prio (!kcfg.dry) trees impls
-  let viol := hs.viol.eraseDups
+  -- the scenario's `prop` says whose clauses decide `holds` (C07 by default; C03 / C17 run this engine as a second pass)
+  let prop := jstr sc "prop"
+  let allViol := (hs.viol ++ holdsC03Cycles kcfg (tins0.map fun (_, _, roots) => roots) impls).eraseDups
+  let viol := allViol.filter fun c =>
+    if prop == "C03" then c.startsWith "C03."
+    else if prop == "C17" then c.startsWith "return_async_iff_hook_outstanding"
+    else !c.startsWith "C03."
   -- accepts: run the model
   let env := envOf impls
   -- cgroups of tick i that are gone (removed / re-created) on some later tick: where the trace leaves the order of a
